@@ -32,9 +32,9 @@ Arguments tree_delete_max {A}.
 
 (* maxResults after the repair (fixes/C02-sorting-maxresults-overflow.patch):
      maxResults := scanner.targetOffset + scanner.targetLimit
-     if maxResults < 0 { maxResults = math.MaxInt64 }      // int64 overflow            *)
+     if scanner.targetOffset > 0 && maxResults < scanner.targetLimit { maxResults = math.MaxInt64 }   // overflow *)
 Definition max_results (off lim : Z) : Z :=
-  let s := wrap64 (off + lim) in if s <? 0 then max_int64 else s.
+  let s := wrap64 (off + lim) in if (0 <? off) && (s <? lim) then max_int64 else s.
 (* the pinned tree *)
 Definition max_results_legacy (off lim : Z) : Z := wrap64 (off + lim).
 
